@@ -1,8 +1,228 @@
-"""Lane K: Kani harnesses on a per-run scratch copy of the real crate (filled in below)."""
+"""Lane K: Kani/CBMC harnesses on a per-run scratch copy of the real crate.
+
+The scratch copy is /repo/rust/core as it is *now* (src, Cargo.toml without [[bench]], Cargo.lock); the
+specification modules of specs/kani/*.rs are appended to the source files they name (`//@append <file>`),
+a `#[cfg(kani)]` thread_local! shim is prepended to lib.rs (Kani cannot compile thread-locals with
+destructors).  Repository lines are never edited.  The scratch copy lives in a fixed directory under
+/tmp that is re-synchronised on every run (so cargo can reuse compiled dependencies) and is protected
+by a lock; it is re-created from nothing when absent.
+"""
+import fcntl
+import json
+import os
+import re
+import shutil
+import subprocess
+import time
+
+VERIF = os.path.dirname(os.path.dirname(os.path.abspath(__file__)))
+REPO = os.environ.get("VERIF_REPO", "/repo")
+KSPECS = os.path.join(VERIF, "specs/kani")
+SCRATCH = os.environ.get("VERIF_KANI_SCRATCH", "/tmp/verif_kani_scratch")
+
+TLS_SHIM = '''
+#[cfg(kani)]
+#[macro_use]
+mod verif_tls {
+    use std::cell::UnsafeCell;
+    pub struct VerifLocal<T: 'static> { init: fn() -> T, cell: UnsafeCell<Option<T>> }
+    unsafe impl<T> Sync for VerifLocal<T> {}
+    impl<T: 'static> VerifLocal<T> {
+        pub const fn new(init: fn() -> T) -> Self { Self { init, cell: UnsafeCell::new(None) } }
+        pub fn with<R, F: FnOnce(&T) -> R>(&'static self, f: F) -> R {
+            unsafe {
+                let slot = &mut *self.cell.get();
+                if slot.is_none() { *slot = Some((self.init)()); }
+                f(slot.as_ref().unwrap())
+            }
+        }
+    }
+    macro_rules! thread_local {
+        ($(static $name:ident : $t:ty = $init:expr;)*) => {
+            $( static $name: crate::verif_tls::VerifLocal<$t> = crate::verif_tls::VerifLocal::new(|| $init); )*
+        };
+    }
+}
+'''
+
+
+def spec_files():
+    out = {}
+    for f in sorted(os.listdir(KSPECS)):
+        if f.endswith(".rs"):
+            text = open(os.path.join(KSPECS, f)).read()
+            m = re.search(r"^//@append\s+(\S+)", text, re.M)
+            if m:
+                out[f] = (m.group(1), text)
+    return out
+
+
+def prepare_scratch():
+    """(re)creates the scratch crate from /repo's current working tree; returns its path"""
+    core = os.path.join(SCRATCH, "core")
+    os.makedirs(core, exist_ok=True)
+    src = os.path.join(REPO, "rust/core")
+    # mirror src/ (delete removed files), keep target/
+    subprocess.run(["rsync", "-a", "--delete", "--checksum", os.path.join(src, "src") + "/", os.path.join(core, "src_repo") + "/"], check=True)
+    cargo = open(os.path.join(src, "Cargo.toml")).read()
+    cargo = re.sub(r"\[\[bench\]\][^\[]*", "", cargo)
+    cargo = re.sub(r"\[dev-dependencies\][^\[]*", "", cargo)
+    write_if_changed(os.path.join(core, "Cargo.toml"), cargo)
+    lock = os.path.join(src, "Cargo.lock")
+    if not os.path.exists(lock):
+        lock = os.path.join(REPO, "Cargo.lock")
+    if os.path.exists(lock):
+        write_if_changed(os.path.join(core, "Cargo.lock"), open(lock).read())
+    os.makedirs(os.path.join(core, ".cargo"), exist_ok=True)
+    write_if_changed(os.path.join(core, ".cargo/config.toml"), "[net]\noffline = true\n")
+    # build src/ = src_repo/ + appended specification modules
+    specs = spec_files()
+    appended = {}
+    for name, (target, text) in specs.items():
+        appended.setdefault(target, []).append((name, text))
+    srcdir = os.path.join(core, "src")
+    repo_src = os.path.join(core, "src_repo")
+    seen = set()
+    for root, _dirs, files in os.walk(repo_src):
+        for f in files:
+            if f.endswith(".snap") or f.endswith(".snap.new"):
+                continue
+            p = os.path.join(root, f)
+            rel = os.path.relpath(p, repo_src)
+            seen.add(rel)
+            text = open(p, errors="replace").read()
+            key = "rust/core/src/" + rel
+            if rel == "lib.rs":
+                text = TLS_SHIM + text
+            for name, t in appended.get(key, []):
+                text += f"\n\n// ===== appended by /verif lane K: specs/kani/{name} =====\n" + t
+            write_if_changed(os.path.join(srcdir, rel), text)
+    for root, _dirs, files in os.walk(srcdir):
+        for f in files:
+            rel = os.path.relpath(os.path.join(root, f), srcdir)
+            if rel not in seen:
+                os.unlink(os.path.join(root, f))
+    missing = [t for t in appended if not os.path.exists(os.path.join(srcdir, os.path.relpath(t, "rust/core/src")))]
+    return core, missing
+
+
+def write_if_changed(path, text):
+    os.makedirs(os.path.dirname(path), exist_ok=True)
+    if os.path.exists(path) and open(path, errors="replace").read() == text:
+        return
+    open(path, "w").write(text)
+
+
+HARN_RE = re.compile(r"^Checking harness ([\w:]+)\.\.\.", re.M)
+
+
+def run_kani(harnesses, timeout=1500, jobs=8, extra=None):
+    """runs the harnesses in one cargo-kani invocation; returns dict name -> dict(ok, s, out)"""
+    os.makedirs(SCRATCH, exist_ok=True)
+    lockf = open(os.path.join(SCRATCH, ".lock"), "w")
+    fcntl.flock(lockf, fcntl.LOCK_EX)
+    try:
+        core, missing = prepare_scratch()
+        if missing:
+            return {"__error__": f"lost anchor: files to append to are missing: {missing}"}
+        cmd = ["cargo", "kani", "-Z", "stubbing", "-Z", "function-contracts", "--output-format=terse", "-j", str(jobs)]
+        for h in harnesses:
+            cmd += ["--harness", h]
+        if extra:
+            cmd += extra
+        env = dict(os.environ)
+        env["CARGO_NET_OFFLINE"] = "true"
+        t0 = time.time()
+        try:
+            p = subprocess.run(cmd, cwd=core, capture_output=True, text=True, timeout=timeout, env=env)
+            out = p.stdout + "\n" + p.stderr
+            rc = p.returncode
+        except subprocess.TimeoutExpired as e:
+            out = (e.stdout or b"").decode(errors="replace") + "\n" + (e.stderr or b"").decode(errors="replace") if isinstance(e.stdout, bytes) else str(e.stdout) + str(e.stderr)
+            rc = -9
+        wall = time.time() - t0
+    finally:
+        fcntl.flock(lockf, fcntl.LOCK_UN)
+        lockf.close()
+    res = {"__wall__": wall, "__rc__": rc, "__cmd__": " ".join(cmd), "__out__": out[-6000:]}
+    # per-harness blocks; with -j every line group is tagged "Thread k:"
+    cur = {}      # thread -> harness name
+    blocks = {}   # harness -> text
+    active = None
+    for line in out.split("\n"):
+        m = re.match(r"^(?:Thread (\d+): )?Checking harness ([\w:]+)\.\.\.", line)
+        if m:
+            t = m.group(1) or "0"
+            cur[t] = m.group(2)
+            blocks.setdefault(m.group(2), "")
+            active = m.group(2)
+            continue
+        m = re.match(r"^Thread (\d+):\s*$", line)
+        if m:
+            active = cur.get(m.group(1))
+            continue
+        if line.startswith("Manual Harness Summary") or line.startswith("Complete - ") or line.startswith("Verification failed for"):
+            active = None
+        if active is not None:
+            blocks[active] += line + "\n"
+    for name, b in blocks.items():
+        short = name.split("::")[-1]
+        ok = "VERIFICATION:- SUCCESSFUL" in b
+        failed = "VERIFICATION:- FAILED" in b
+        m = re.search(r"Verification Time: ([\d.]+)s", b)
+        cover_bad = re.findall(r"(\d+) of (\d+) cover properties satisfied", b)
+        unsat_cover = any(int(a) < int(c) for a, c in cover_bad)
+        res[short] = {"name": short, "full": name, "ok": ok and not unsat_cover, "failed": failed, "s": float(m.group(1)) if m else None,
+                      "vacuous_cover": unsat_cover, "out": b[-3000:]}
+    return res
 
 
 def run_kani_obligations(obs, work, tier, seed):
-    return []
+    """obs: registry entries {id, harnesses:[...], kind}; one cargo-kani run for all of them"""
+    names = []
+    for o in obs:
+        for h in o["harnesses"]:
+            if h not in names:
+                names.append(h)
+    if not names:
+        return []
+    r = run_kani(names)
+    results = []
+    for o in obs:
+        res = {"id": o["id"], "lane": "kani", "backend": "kani 0.68 / cbmc 6.11", "kind": o.get("kind", "complete"), "status": "undecided",
+               "harnesses": [], "failures": [], "notes": [], "seconds": round(r.get("__wall__", 0), 1), "cmd": r.get("__cmd__")}
+        if "__error__" in r:
+            res["notes"].append(r["__error__"])
+            results.append(res)
+            continue
+        allok = True
+        for h in o["harnesses"]:
+            hr = r.get(h)
+            if hr is None:
+                res["notes"].append(f"harness {h} produced no verdict (build error, time-out or crash): " + r.get("__out__", "")[-800:])
+                allok = False
+                res["harnesses"].append({"name": h, "ok": False, "s": None})
+                continue
+            res["harnesses"].append({"name": h, "ok": hr["ok"], "s": hr["s"]})
+            if hr["vacuous_cover"]:
+                res["notes"].append(f"vacuity guard: cover property of {h} not satisfied")
+                allok = False
+            elif hr["failed"] and "unwinding assertion" in hr["out"] and not re.search(r"Failed Checks: (?!unwinding assertion)", hr["out"]):
+                allok = False
+                res["notes"].append(f"harness {h}: only unwinding assertions failed (bound too small): undecided")
+            elif hr["failed"]:
+                allok = False
+                res["failures"].append({"function": h, "class": "verification", "msg": "harness assertion failed (CBMC counterexample)", "line": None,
+                                        "code": "", "block": hr["out"]})
+            elif not hr["ok"]:
+                allok = False
+                res["notes"].append(f"harness {h}: no SUCCESSFUL verdict")
+        if allok:
+            res["status"] = "ok"
+        elif res["failures"] and not res["notes"]:
+            res["status"] = "failed"
+        results.append(res)
+    return results
 
 
 def counterexample_search(prop, result, failure):
